@@ -191,6 +191,14 @@ def wellformed(rng, tier):
                                           (0x86, 0x67, [(0x05, b"CUEI")])], pinfo=[(0x05, b"CUEI")]) + b"\xff" * 2)
     pats = [b"\x00" + T.pat_section([(i + 1, PMT_PID + i) for i in range(n)]) + b"\xff" * 2 for n in (1, 3, 40)]
     sigs = [sctelib.g_signal(rng, pf=0) for _ in range(4 if quick else 20)]
+    # foreign (non-segmentation) descriptors that are NOT adjacent: avail / segmentation / DTMF-like orders, so that a
+    # decoder which keeps descriptor bytes as sub-slices of its input and appends to them would write into the input
+    for _ in range(3 if quick else 12):
+        f1 = [1, rng.choice([0, 1]), b"CUEI" + bytes(rng.randrange(256) for _ in range(rng.randrange(1, 9)))]
+        f2 = [1, rng.choice([1, 3]), b"CUEI" + bytes(rng.randrange(256) for _ in range(rng.randrange(6, 30)))]
+        f3 = [1, 0x80, bytes(rng.randrange(256) for _ in range(rng.randrange(0, 20)))]
+        for ds in ([f1, sctelib.g_seg(rng), f2], [f1, sctelib.g_seg(rng), f2, sctelib.g_seg(rng), f3], [sctelib.g_seg(rng), f1, sctelib.g_seg(rng), f2]):
+            sigs.append(sctelib.g_signal(rng, descs=ds, pf=0))
     sigs = [s for s in sigs if sctelib.fits(s)]
     sctes = [b for b in sctelib.serialise(sigs)] + [x for x in seeds()[4:7]]
     lines = [c12.comcast_line(1, 1, 0, 0, 0x80, 3, 0x1D, (7, 9), b"\x01\x02"), c12.comcast_line(0, 1, 1, 0, None, None, None, None, b""),
